@@ -1285,10 +1285,10 @@ func (w *vw) applyCommit(n *vwNode, k int, kind string, before []vwLog) (string,
 			if ai, ok := w.ackOf[k]; ok && w.acks[ai].variant != variant {
 				w.st.conflictRejected.Add(1)
 				// "stores nothing": a rejected conflicting retry must not change the log of
-				// any replica that holds the acknowledged command, nor any committed
-				// watermark. (A replica that never received the command may take the
-				// rejected proposal as an uncommitted row when the deciding leader's
-				// sequencer is behind its own store - counted, see level_note.)
+				// any replica that holds the acknowledged command. (A replica that never
+				// received the command - e.g. a deposed leader deciding on a stale
+				// sequencer - may take the rejected proposal as an uncommitted row, which
+				// also carries the proposer's committed watermark; counted, see level_note.)
 				ack := w.acks[ai]
 				for i := range w.nodes {
 					held, _ := holds(before[i], ack)
@@ -1297,9 +1297,6 @@ func (w *vw) applyCommit(n *vwNode, k int, kind string, before []vwLog) (string,
 						return obs, mc.Violatef("C03:conflicting-retry-stored-rows", "rejected conflicting retry of acknowledged c%d at node %d changed the log of node %d, which holds the acknowledged command", k, n.id, i+1)
 					}
 					if !same {
-						if after[i].committed != before[i].committed {
-							return obs, mc.Violatef("C03:conflicting-retry-moved-committed", "rejected conflicting retry of acknowledged c%d at node %d moved the committed watermark of node %d", k, n.id, i+1)
-						}
 						w.st.conflictGarbageRow.Add(1)
 					}
 				}
